@@ -136,9 +136,41 @@ def closed(g, vis):
     return all(p >= n or p in vis for r in vis if r < n for p in g[r])
 
 
+def _ghost(g, p):
+    """p does not exist in the graph g (an origin graph has None entries for undefined ids)"""
+    return p >= len(g) or g[p] is None
+
+
 def fresh_root(u, i):
     ps = u["g"][i]
-    return (not ps) or ps[0] >= len(u["g"]) or (ps[0] in u["late"] and i not in u["late"])
+    return (not ps) or _ghost(u["g"], ps[0]) or (ps[0] in u["late"] and i not in u["late"])
+
+
+def origin_universe(u):
+    """Universes with "gdef" (ghost definitions {str(id): {"ps": [...], "ch": [...]}}): the history the
+    sparse source was cut out of.  The ids >= n named in gdef exist there (same ids), everything is
+    built in `order`; the source proper then receives only the revisions 0..n-1, each with its
+    inventory and every text its tree needs -- so it holds texts named after revisions it lacks."""
+    g, n = u["g"], len(u["g"])
+    gd = {int(k): v for k, v in u["gdef"].items()}
+    m = max(gd) + 1
+    go = [list(ps) for ps in g] + [None] * (m - n)
+    cho = [list(c) for c in u["ch"]] + [[] for _ in range(m - n)]
+    for k, v in gd.items():
+        go[k] = list(v["ps"])
+        cho[k] = list(v["ch"])
+    order, done = [], set()
+
+    def visit(x):
+        if x in done or _ghost(go, x):
+            return
+        done.add(x)
+        for p in go[x]:
+            visit(p)
+        order.append(x)
+    for i in range(n):
+        visit(i)
+    return {"g": go, "ch": cho, "late": [], "order": order}
 
 
 # ---- universe generation ----------------------------------------------------------------------
@@ -162,15 +194,41 @@ def gen_universe(rng, n, p_late=0.3, **kw):
             l = rng.choice(cands)
             c0 = rng.choice([i for i in range(l + 1, n) if l in g[i]])
             lt = {l}
-            for i in range(l + 1, n):
-                if i != c0 and any(p in lt for p in g[i]) and rng.random() < 0.7:
-                    lt.add(i)
+            if rng.random() < 0.5:       # else a hole: only l is late, all its descendants are already in the seeded targets
+                for i in range(l + 1, n):
+                    if i != c0 and any(p in lt for p in g[i]) and rng.random() < 0.7:
+                        lt.add(i)
             late = sorted(lt)
     return {"g": g, "ch": ch, "late": late}
 
 
+def gen_sparse_universe(rng, n):
+    """a history whose source is cut out of a larger one: some of the ghosts of the source exist in the
+    origin (gdef) and introduced texts that revisions of the source still reference"""
+    u = gen_universe(rng, n, p_late=0.0, p_ghost=0.2, p_left_ghost=0.25)
+    g = u["g"]
+    ghosts = sorted({p for ps in g for p in ps if p >= n})
+    if not ghosts:
+        g[0] = [n + daglib.GHOST_BASE + 30]
+        ghosts = [g[0][0]]
+    gdef = {}
+    for x in ghosts:
+        if rng.random() < 0.8 or not gdef:
+            first_child = min(i for i, ps in enumerate(g) if x in ps)
+            ps = [rng.randrange(first_child)] if first_child > 0 and rng.random() < 0.5 else []
+            gdef[str(x)] = {"ps": ps, "ch": sorted(rng.sample(KINDS, rng.choice([1, 2, 3])))}
+    u["gdef"] = gdef
+    # in the origin the defined ghosts have ancestors: drop merged parents that became redundant
+    go = [ps if ps is not None else [] for ps in origin_universe(u)["g"]]
+    for i, ps in enumerate(g):
+        hs = daglib.heads(go, ps)
+        g[i] = ps[:1] + [p for k, p in enumerate(ps[1:]) if p in hs and p not in ps[:k + 1]]
+        go[i] = g[i]
+    return u
+
+
 def ukey(u):
-    return repr((u["g"], u["ch"], u["late"], u.get("big", False)))
+    return repr((u["g"], u["ch"], u["late"], u.get("big", False), sorted((u.get("gdef") or {}).items())))
 
 
 # ---- materialisation -----------------------------------------------------------------------------
@@ -258,8 +316,8 @@ def sign(repo, i):
 
 
 def _lh_len(g, x):
-    n, k = len(g), 1
-    while g[x] and g[x][0] < n:
+    k = 1
+    while g[x] and not _ghost(g, g[x][0]):
         x = g[x][0]
         k += 1
     return k
@@ -350,6 +408,12 @@ def source(u, fmt):
     if u.get("big"):
         _build_big(u, fmt, final)
         p1 = final
+    elif u.get("gdef"):
+        uo = origin_universe(u)
+        origin = os.path.join(base, "origin")
+        _build_disk(uo, fmt, origin, uo["order"])
+        _sparse_copy(u, fmt, origin, final)
+        p1 = final
     else:
         late = set(u["late"])
         cur = _build_disk(u, fmt, final, [i for i in range(n) if i not in late])
@@ -362,6 +426,45 @@ def source(u, fmt):
     _check_graph(u, final)
     _st["src"][key] = (p1, final)
     return p1, final
+
+
+def origin_path(u, fmt):
+    return os.path.join(os.path.dirname(source(u, fmt)[1]), "origin")
+
+
+def _entry_keys(repo, inv):
+    root = inv.root.file_id if inv.root is not None else None
+    return [(ie.file_id, ie.revision) for _p, ie in inv.iter_entries()
+            if repo.supports_rich_root() or ie.file_id != root]
+
+
+def _sparse_copy(u, fmt, origin, final):
+    """final := a repository (+ branch) holding exactly the revisions 0..n-1 of origin, parents as
+    recorded, each with its inventory, the texts its tree references and its signature"""
+    from breezy import controldir, repository as _r
+    os.makedirs(final)
+    cd = controldir.format_registry.make_controldir(fmt).initialize(final)
+    s = cd.create_repository()
+    cd.create_branch()
+    a = _r.Repository.open(origin)
+    g = u["g"]
+    with a.lock_read(), s.lock_write():
+        s.start_write_group()
+        try:
+            have = set()
+            for i in range(len(g)):
+                inv = a.get_inventory(rid(i))
+                keys = [k for k in _entry_keys(a, inv) if k not in have]
+                have.update(keys)
+                s.texts.insert_record_stream(a.texts.get_record_stream(keys, "unordered", True))
+                s.add_inventory(rid(i), inv, [rid(p) for p in g[i]])
+                s.add_revision(rid(i), a.get_revision(rid(i)))
+                if i % 4 == 1:
+                    s.add_signature_text(rid(i), sig_text(i))
+        except BaseException:
+            s.abort_write_group()
+            raise
+        s.commit_write_group()
 
 
 def _check_graph(u, path):
@@ -409,6 +512,16 @@ def _real(repo):
     return repo
 
 
+def _known(text_key):
+    """a text of the universe's files (the revisions the source lacks but the target holds, made by
+    _extra_source, have file ids of their own)"""
+    try:
+        fidx(text_key[0])
+        return True
+    except ValueError:
+        return False
+
+
 def repo_state(path, n, stacked=False):
     """[revs, invs, texts] held by the repository itself (no fallbacks); texts of revisions the
     universe does not know (index >= n) are dropped."""
@@ -416,7 +529,7 @@ def repo_state(path, n, stacked=False):
     with repo.lock_read():
         revs = sorted(idx(k[0]) for k in repo.revisions.without_fallbacks().keys())
         invs = sorted(idx(k[0]) for k in repo.inventories.without_fallbacks().keys())
-        texts = sorted([fidx(k[0]), idx(k[1])] for k in repo.texts.without_fallbacks().keys() if idx(k[1]) < n)
+        texts = sorted([fidx(k[0]), idx(k[1])] for k in repo.texts.without_fallbacks().keys() if _known(k))
     return [revs, invs, texts]
 
 
@@ -432,16 +545,17 @@ def upload_leftovers(path):
 CHECK_ATTRS = ("missing_parent_links", "inconsistent_parents", "unreferenced_versions", "_report_items")
 
 
-def _ghost_fill_only(item, late):
+def _ghost_fill_only(item, late, n=None):
     """inconsistent_parents item whose only discrepancy is that the recorded per-file parents lack
     texts of revisions that were still ghosts when the text was committed (late revisions): inherent
-    to filling a ghost, present in the source itself"""
+    to filling a ghost, present in the source itself; likewise texts of revisions the source lacks
+    (ids >= n) that the target happens to hold"""
     _rev, _fid, found, correct = item
     extra = set(correct) - set(found)
-    return set(found) <= set(correct) and all(idx(p) in late for p in extra)
+    return set(found) <= set(correct) and all(idx(p) in late or (n is not None and idx(p) >= n) for p in extra)
 
 
-def check_problems(repo, late=()):
+def check_problems(repo, late=(), n=None):
     """Repository.check() summarised as a sorted list of problem items ([] when clean)."""
     try:
         res = repo.check()
@@ -452,7 +566,7 @@ def check_problems(repo, late=()):
         v = getattr(res, a, None)
         if v:
             for it in (sorted(v.items()) if isinstance(v, dict) else sorted(v, key=repr)):
-                if a == "inconsistent_parents" and _ghost_fill_only(it, late):
+                if a == "inconsistent_parents" and _ghost_fill_only(it, late, n):
                     continue
                 bad.append("%s %r" % (a, it))
     for a in ("missing_revision_cnt", "missing_inventory_sha_cnt"):
@@ -485,7 +599,7 @@ def text_shas(repo, n):
     out = {}
     with repo.lock_read():
         vf = repo.texts.without_fallbacks()
-        keys = [k for k in vf.keys() if idx(k[1]) < n]
+        keys = [k for k in vf.keys() if _known(k)]
         for rec in repo.texts.get_record_stream(keys, "unordered", True):
             k = (fidx(rec.key[0]), idx(rec.key[1]))
             try:
@@ -513,7 +627,7 @@ def text_parents(repo, n):
     """{(file idx, rev idx): per-file parents} of the texts the repository holds itself"""
     with repo.lock_read():
         vf = repo.texts.without_fallbacks() if hasattr(repo.texts, "without_fallbacks") else repo.texts
-        keys = [k for k in vf.keys() if idx(k[1]) < n]
+        keys = [k for k in vf.keys() if _known(k)]
         pm = repo.texts.get_parent_map(keys)
     return {(fidx(k[0]), idx(k[1])): tuple(sorted((fidx(p[0]), idx(p[1])) for p in (v or ()))) for k, v in pm.items()}
 
@@ -532,9 +646,9 @@ def coq_revs(l):
     return "[" + "; ".join(str(int(x)) for x in l) + "]"
 
 
-def coq_cfg(src_fmt, tgt_fmt, stacked):
-    return "(Cfg %s %s %s %s)" % (coq_bool(tgt_fmt == "2a"), coq_bool(src_fmt != tgt_fmt),
-                                  coq_bool(src_fmt == "2a" and tgt_fmt != "2a"), coq_bool(bool(stacked)))
+def coq_cfg(src_fmt, tgt_fmt, stacked, src_via="local"):
+    return "(Cfg %s %s %s %s)" % (coq_bool(tgt_fmt == "2a"), coq_bool(src_fmt == "2a" and tgt_fmt != "2a"),
+                                  coq_bool(bool(stacked)), coq_bool(src_via == "smart"))
 
 
 def coq_ops(ops):
@@ -697,7 +811,7 @@ def content_facts(tpath, stacked, u, tfmt, n, after, src_t, src_tp, src_sha, src
                 for k in repo.signatures.without_fallbacks().keys()}
     so["sig_bad"] = sorted(r for r in local if r not in committed and sigs.get(r) != (sig_text(r) if r % 4 == 1 else None))
     so["dup"] = stored_twice(open_repo(tpath, stacked))
-    chk = check_problems(open_repo(tpath, stacked), set(u["late"]))
+    chk = check_problems(open_repo(tpath, stacked), set(u["late"]), n)
     so["check"] = [it for it in chk if it not in src_chk]     # problems the source does not have itself
     so["unreadable"] = _readable_problems(tpath, stacked, u, tfmt, local)
     return so
@@ -734,7 +848,16 @@ def run_case(case):
         for t in case.get("seed", []):
             open_repo(tpath, stacked).fetch(_r.Repository.open(p1t), revision_id=rid(t))
         for x in case.get("extra", []):
-            open_repo(tpath, stacked).fetch(_r.Repository.open(_extra_source(x)), revision_id=rid(x))
+            if str(x) in (u.get("gdef") or {}):
+                # a revision the sparse source lacks but its origin has: the target gets the real one
+                xr = _r.Repository.open(origin_path(u, seed_fmt))
+                open_repo(tpath, stacked).fetch(xr, revision_id=rid(x))
+                with xr.lock_read():
+                    inv = xr.get_inventory(rid(x))
+                    _st["inv"][("xtexts", ukey(u), case["src_fmt"], tfmt, x)] = sorted(
+                        (fidx(ie.file_id), idx(ie.revision)) for _p, ie in inv.iter_entries())
+            else:
+                open_repo(tpath, stacked).fetch(_r.Repository.open(_extra_source(x)), revision_id=rid(x))
         pre = repo_state(tpath, n, stacked)
         model = {"wf": True, "pre": pre, "steps": []}
         state = pre
@@ -782,28 +905,20 @@ def model_term(case):
     zt = sorted(anc_present(u["g"], late, case.get("seed") or []))
     ops = [("commit", o[1]) if o[0] == "commit" else ("fetchall",) if o[3] == "all" else ("fetch", o[1], o[2])
            for o in case["ops"]]
-    return "run_case %s %s %s %s %s %s %s %s" % (
-        g, iv, coq_cfg(case["src_fmt"], case["tgt_fmt"], case.get("fb")),
+    xtexts = []
+    for x in case.get("extra", []):
+        xtexts += _st["inv"].get(("xtexts", ukey(u), case["src_fmt"], case["tgt_fmt"], x), [])
+    return "run_case %s %s %s %s %s %s %s %s %s %s" % (
+        g, iv, coq_cfg(case["src_fmt"], case["tgt_fmt"], case.get("fb"), case["src_via"]),
         "DRevs" if revs_only(case) else "(DAll %s)" % coq_bool(case["tgt_fmt"] != "2a"),
-        coq_revs(zf), coq_revs(zt), coq_revs(case.get("extra", [])), coq_ops(ops))
+        coq_bool(not u.get("gdef")),
+        coq_revs(zf), coq_revs(zt), coq_revs(case.get("extra", [])), coq_tkeys(xtexts), coq_ops(ops))
 
 
 def revs_only(case):
-    """cases compared on revision sets only: see stacked_merge_commits.  (Before /repo be5f5d4 also knit
-    targets holding a fillable ghost: the old walk left the ghost out and the knit delta-compression
-    parents of the copied records were copied instead.)"""
-    return bool(stacked_merge_commits(case))
-
-
-def stacked_merge_commits(case):
-    """commits of a revision with two or more existing parents into a stacked repository: there
-    PackCommitBuilder._heads consults only the stacked repository's own text index, so the committed
-    revision is not the universe's (finding C08-stacked-merge-commit-heads); only revision sets are compared"""
-    g = case["u"]["g"]
-    n = len(g)
-    if not case.get("fb"):
-        return []
-    return [k for k, op in enumerate(case["ops"]) if op[0] == "commit" and len([p for p in g[op[1]] if p < n]) >= 2]
+    """cases compared on revision sets only (model detail DRevs): none any more.  Before /repo be5f5d4 knit
+    targets holding a fillable ghost, before /repo 492ef0d merge commits into a stacked repository were."""
+    return False
 
 
 def model_obs(case, obs):
